@@ -19,6 +19,20 @@
 //!                               `k:<received per type 0..6, dot separated>,p<processed>,i<invalid>,e<receive io errors>,
 //!                               l<connections lost>,s<the state machine's unprocessable counter>`, `k:-,l..,s..` while
 //!                               the router has no series yet, `k:-` if the visit was not made.
+//!   H n                         back-pressure (C07): from the moment the reader gets here (it has handed out the
+//!                               events before this op and is asked for more) the receiving end of the gate takes n
+//!                               more updates and then HOLDS: the next update handed to it is not taken, so the
+//!                               `gate.update_data(..).await` of the connection does not return. The harness lets an
+//!                               hour pass on the runtime's (paused) clock while the update is held, then releases.
+//!                               Observed `h:<kind of the update that was held: u|w|W|eos>`, `h:-` if none came,
+//!                               `h:lost` if one was handed over and held but had not arrived once the task was
+//!                               over and the receiving end released. The trace must be the trace without `H`.
+//!   L                           contention on the ingress register (C07/C14): when the reader gets here another
+//!                               party takes the register's WRITE lock (what update_info of any other connection
+//!                               does) and keeps it until the connection's handler has left its read loop and has
+//!                               had ample time to reach (and, did it not wait, to pass) ids_for_parent; then the lock
+//!                               is released. Observed `lk:<1 iff the reader got here>`; the trace must be the trace
+//!                               without `L` (the WithdrawBulk lists every child).
 //!   Z eof | Z hang              what the reader does when the script is exhausted: end of
 //!                               file (default), or stay pending - the harness then terminates
 //!                               the unit's gate (unit shutdown)
@@ -71,7 +85,7 @@ pub const KINDS: [(&str, ErrorKind); 21] = [
 ];
 
 #[derive(Clone)]
-enum Ev { Bytes(Vec<u8>), Err(ErrorKind, &'static str), Get }
+enum Ev { Bytes(Vec<u8>), Err(ErrorKind, &'static str), Get, Hold(usize), Lock }
 
 /// hand-over between the scripted reader (which stays pending at a `G`) and the task that asks the pages
 struct GetShared {
@@ -98,6 +112,45 @@ struct ScriptReader {
     gets: Option<Arc<GetShared>>,
     gets_passed: usize,
     get_asked: bool,
+    /// the connection's fixture, for `H` and `L`
+    fx: Option<Arc<StreamFixture>>,
+    marks: Arc<Marks>,
+}
+
+/// what the reader did about `H` / `L`
+#[derive(Default)]
+struct Marks {
+    hold_reached: AtomicBool,
+    lock_reached: AtomicBool,
+    /// the session's task is over (tells the other party of an `L` to let go)
+    over: AtomicBool,
+    contender: Mutex<Option<std::thread::JoinHandle<()>>>,
+}
+
+/// `L`: another party inside the register, as `update_info` is: it holds the write lock until this connection's
+/// handler has left its read loop (router_connection_lost is the first thing the block after the loop does; the
+/// next use of the register is ids_for_parent) plus a grace period in which a handler that does not wait for the
+/// lock would be long gone. Returns once the lock is held.
+fn contend(fx: Arc<StreamFixture>, marks: Arc<Marks>) -> std::thread::JoinHandle<()> {
+    use std::time::{Duration, Instant};
+    let (tx, rx) = std::sync::mpsc::channel::<()>();
+    let m = marks.clone();
+    let h = std::thread::spawn(move || {
+        let reg = fx.register.clone();
+        reg.verif_with_write_lock(|| {
+            let _ = tx.send(());
+            let t0 = Instant::now();
+            while fx.connection_lost_count() == 0 && !m.over.load(SeqCst) && t0.elapsed() < Duration::from_millis(400) {
+                std::thread::sleep(Duration::from_micros(100));
+            }
+            let t1 = Instant::now();
+            while !m.over.load(SeqCst) && t1.elapsed() < Duration::from_millis(15) {
+                std::thread::sleep(Duration::from_micros(200));
+            }
+        })
+    });
+    let _ = rx.recv();
+    h
 }
 
 impl AsyncRead for ScriptReader {
@@ -135,6 +188,21 @@ impl AsyncRead for ScriptReader {
                     if g.served.load(SeqCst) > me.gets_passed { continue; }
                     return Poll::Pending;
                 }
+                Some(Ev::Hold(n)) => {
+                    let n = *n;
+                    me.idx += 1;
+                    if let Some(fx) = &me.fx { fx.hold_updates_after(n); me.marks.hold_reached.store(true, SeqCst); }
+                    continue;
+                }
+                Some(Ev::Lock) => {
+                    me.idx += 1;
+                    if let Some(fx) = &me.fx {
+                        let h = contend(fx.clone(), me.marks.clone());
+                        *me.marks.contender.lock().unwrap() = Some(h);
+                        me.marks.lock_reached.store(true, SeqCst);
+                    }
+                    continue;
+                }
                 None if me.hang => {
                     *me.stats.last.lock().unwrap() = "hang".into();
                     if let Some(tx) = me.hang_tx.take() { let _ = tx.send(()); }
@@ -165,7 +233,7 @@ fn hex(b: &[u8]) -> String { b.iter().map(|x| format!("{x:02x}")).collect() }
 /// non-fatal error that the code has.
 fn declares_huge(evs: &[Ev]) -> bool {
     let mut flat: Vec<Option<u8>> = vec![];
-    for e in evs { match e { Ev::Bytes(b) => flat.extend(b.iter().map(|x| Some(*x))), Ev::Err(..) => flat.push(None), Ev::Get => {} } }
+    for e in evs { match e { Ev::Bytes(b) => flat.extend(b.iter().map(|x| Some(*x))), Ev::Err(..) => flat.push(None), Ev::Get | Ev::Hold(_) | Ev::Lock => {} } }
     let mut i = 0;
     'outer: while i < flat.len() {
         let mut h = vec![];
@@ -379,10 +447,16 @@ pub fn run_case(line: &str) -> String {
             "E" => { let (n, k) = KINDS.iter().find(|(n, _)| *n == op[1]).expect("error kind"); evs.push(Ev::Err(*k, n)); }
             "Z" => hang = op[1] == "hang",
             "G" => evs.push(Ev::Get),
+            "H" => evs.push(Ev::Hold(op[1].parse().expect("H n"))),
+            "L" => evs.push(Ev::Lock),
             _ => panic!("bad op {:?}", op),
         }
     }
     if declares_huge(&evs) { return "HUGE".into(); }
+    let count = |f: fn(&Ev) -> bool| evs.iter().filter(|e| f(e)).count();
+    let (nh, nl, ng) = (count(|e| matches!(e, Ev::Hold(_))), count(|e| matches!(e, Ev::Lock)), count(|e| matches!(e, Ev::Get)));
+    if nh > 1 || nl > 1 { panic!("at most one H and one L per case"); }
+    if (nh + nl > 0 && ng > 0) || (nh > 0 && nl > 0) { panic!("H, L and G are not combined"); }
     // Unit shutdown reaches the connection through a gate clone that attaches itself to the unit's
     // gate from a spawned task (comms.rs Gate::clone); a clone that attaches after the Terminate
     // command went round is never told (tokio scheduling, outside the model). The harness waits a
@@ -390,7 +464,7 @@ pub fn run_case(line: &str) -> String {
     // never ends on shutdown still prints STUCK.
     let mut res = String::new();
     for _attempt in 0..3 {
-        res = run_once(evs.clone(), hang, full);
+        res = if nh > 0 { run_held(evs.clone(), hang, full) } else { run_once(evs.clone(), hang, full) };
         if !(hang && res.starts_with("STUCK")) { break; }
     }
     res
@@ -407,9 +481,11 @@ fn run_once(evs: Vec<Ev>, hang: bool, full: bool) -> String {
         let n_gets = evs.iter().filter(|e| matches!(e, Ev::Get)).count();
         let (get_tx, mut get_rx) = tokio::sync::mpsc::unbounded_channel();
         let gets = Arc::new(GetShared { served: AtomicUsize::new(0), waker: Mutex::new(None), tx: get_tx });
-        let reader = ScriptReader { evs, idx: 0, off: 0, hang, eof_reads: 0, stats: st.clone(), hang_tx: Some(hang_tx),
-                                    gets: Some(gets.clone()), gets_passed: 0, get_asked: false };
+        let n_locks = evs.iter().filter(|e| matches!(e, Ev::Lock)).count();
         let fx = Arc::new(StreamFixture::new("198.51.100.1:11019".parse().unwrap()).await);
+        let marks = Arc::new(Marks::default());
+        let reader = ScriptReader { evs, idx: 0, off: 0, hang, eof_reads: 0, stats: st.clone(), hang_tx: Some(hang_tx),
+                                    gets: Some(gets.clone()), gets_passed: 0, get_asked: false, fx: Some(fx.clone()), marks: marks.clone() };
         // the HTTP client: serves one `G` at a time while the reader is silent
         let got: Arc<Mutex<Vec<String>>> = Arc::new(Mutex::new(vec![]));
         let (fx4, got2, gets2) = (fx.clone(), got.clone(), gets.clone());
@@ -435,45 +511,186 @@ fn run_once(evs: Vec<Ev>, hang: bool, full: bool) -> String {
         if res.is_err() { task.abort(); }
         term.abort();
         client.abort();
-        let mut out: Vec<String> = vec![];
-        match res {
-            Err(_) => out.push(if st.wedged.load(SeqCst) { "WEDGE".into() } else { "STUCK".into() }),
-            Ok(Err(e)) if e.is_panic() => out.push(format!("PANIC@{}", LAST_PANIC.lock().unwrap())),
-            Ok(Err(_)) => out.push("CANCELLED".into()),
-            Ok(Ok(())) => {}
-        }
-        out.push(format!("end:{}", st.last.lock().unwrap()));
-        out.push(format!("pos:{}", st.consumed.load(SeqCst)));
-        let ups = fx.updates();
-        let n = ups.len();
-        let tail: Vec<&str> = ups[n.saturating_sub(2)..].iter().map(kind_char).collect();
-        out.push(format!("tail:{}", if tail.is_empty() { "-".to_string() } else { tail.join(",") }));
-        let eos: Vec<&Update> = ups.iter().filter(|u| matches!(u, Update::UpstreamStatusChange(_))).collect();
-        out.push(format!("eos:{}", eos.len()));
-        // the judgement of BmpStreamModel.cleanup_ok: the trace ends WithdrawBulk ids, EndOfStream router;
-        // no other EndOfStream; every id an earlier update speaks about is in ids
-        let cover = if n >= 2 && matches!(ups[n - 1], Update::UpstreamStatusChange(_)) && matches!(ups[n - 2], Update::WithdrawBulk(_)) {
-            let ids: Vec<u32> = match &ups[n - 2] { Update::WithdrawBulk(ids) => ids.to_vec(), _ => vec![] };
-            let eos_ok = matches!(&ups[n - 1], Update::UpstreamStatusChange(UpstreamStatus::EndOfStream { ingress_id }) if *ingress_id == fx.router_id);
-            let pre = &ups[..n - 2];
-            let no_other = !pre.iter().any(|u| matches!(u, Update::UpstreamStatusChange(_)));
-            let all = pre.iter().flat_map(ids_of).all(|i| ids.contains(&i));
-            if eos_ok && no_other && all { "ok" } else { "MISSING" }
-        } else { "-" };
-        out.push(format!("cover:{cover}"));
-        out.push(final_counters(&fx));
+        // the other party of an `L` lets go of the register (the names of the trace are read from it)
+        marks.over.store(true, SeqCst);
+        let contender = marks.contender.lock().unwrap().take();
+        if let Some(h) = contender { let _ = tokio::task::spawn_blocking(move || h.join()).await; }
+        let head = match res {
+            Err(_) => Some(if st.wedged.load(SeqCst) { "WEDGE".to_string() } else { "STUCK".to_string() }),
+            Ok(Err(e)) if e.is_panic() => Some(format!("PANIC@{}", LAST_PANIC.lock().unwrap())),
+            Ok(Err(_)) => Some("CANCELLED".into()),
+            Ok(Ok(())) => None,
+        };
+        let mut mid: Vec<String> = vec![];
         {
             let got = got.lock().unwrap();
-            for k in 0..n_gets { out.push(got.get(k).cloned().unwrap_or_else(|| if full { "g:- k:-".into() } else { "g:-".into() })); }
+            for k in 0..n_gets { mid.push(got.get(k).cloned().unwrap_or_else(|| if full { "g:- k:-".into() } else { "g:-".into() })); }
         }
-        if full {
-            out.push("|".into());
-            out.push(format!("phase:{}", fx.phase().await));
-            for u in ups.iter() { out.push(show_update(&fx, u)); }
-        }
-        out.join(" ")
+        for _ in 0..n_locks { mid.push(format!("lk:{}", marks.lock_reached.load(SeqCst) as u8)); }
+        let phase = fx.phase().await;
+        observation(&fx, &st, head, mid, full, phase)
     })
 }
+
+/// the observation of one run: see the head of this file
+fn observation(fx: &StreamFixture, st: &Stats, head: Option<String>, mid: Vec<String>, full: bool, phase: u8) -> String {
+    let mut out: Vec<String> = head.into_iter().collect();
+    out.push(format!("end:{}", st.last.lock().unwrap()));
+    out.push(format!("pos:{}", st.consumed.load(SeqCst)));
+    let ups = fx.updates();
+    let n = ups.len();
+    let tail: Vec<&str> = ups[n.saturating_sub(2)..].iter().map(kind_char).collect();
+    out.push(format!("tail:{}", if tail.is_empty() { "-".to_string() } else { tail.join(",") }));
+    let eos: Vec<&Update> = ups.iter().filter(|u| matches!(u, Update::UpstreamStatusChange(_))).collect();
+    out.push(format!("eos:{}", eos.len()));
+    // the judgement of BmpStreamModel.cleanup_ok: the trace ends WithdrawBulk ids, EndOfStream router;
+    // no other EndOfStream; every id an earlier update speaks about is in ids
+    let cover = if n >= 2 && matches!(ups[n - 1], Update::UpstreamStatusChange(_)) && matches!(ups[n - 2], Update::WithdrawBulk(_)) {
+        let ids: Vec<u32> = match &ups[n - 2] { Update::WithdrawBulk(ids) => ids.to_vec(), _ => vec![] };
+        let eos_ok = matches!(&ups[n - 1], Update::UpstreamStatusChange(UpstreamStatus::EndOfStream { ingress_id }) if *ingress_id == fx.router_id);
+        let pre = &ups[..n - 2];
+        let no_other = !pre.iter().any(|u| matches!(u, Update::UpstreamStatusChange(_)));
+        let all = pre.iter().flat_map(ids_of).all(|i| ids.contains(&i));
+        if eos_ok && no_other && all { "ok" } else { "MISSING" }
+    } else { "-" };
+    out.push(format!("cover:{cover}"));
+    out.push(final_counters(fx));
+    out.extend(mid);
+    if full {
+        out.push("|".into());
+        out.push(format!("phase:{phase}"));
+        for u in ups.iter() { out.push(show_update(fx, u)); }
+    }
+    out.join(" ")
+}
+
+// ---- `H`: the connection under back-pressure, on a clock the harness moves ----------------------------------
+// tokio's clock can only be paused on a current-thread runtime, and the connection cannot run ON such a runtime:
+// a cloned Gate detaches in its Drop with block_in_place (comms.rs), which panics there. So the runtime of a held
+// run is a current-thread runtime with a paused clock that carries the gate's tasks and every timer, and the
+// connection's future (the real read_from_router) is driven by a small executor on a thread of the runtime's
+// blocking pool (the runtime's handle is current there, block_in_place is allowed). While that thread lives the
+// clock does not advance by itself (tokio inhibits auto-advance while a spawn_blocking task runs): time moves only
+// when the harness says so, and the harness says so only when the session's thread has nothing left to do.
+enum ExState { Running { woken: bool }, Idle, Notified, Done }
+struct Exec { st: Mutex<ExState>, cv: std::sync::Condvar }
+impl std::task::Wake for Exec {
+    fn wake(self: Arc<Self>) { self.wake_by_ref() }
+    fn wake_by_ref(self: &Arc<Self>) {
+        let mut st = self.st.lock().unwrap();
+        match *st {
+            ExState::Running { .. } => *st = ExState::Running { woken: true },
+            ExState::Idle => { *st = ExState::Notified; self.cv.notify_all(); }
+            ExState::Notified | ExState::Done => {}
+        }
+    }
+}
+impl Exec {
+    fn drive<F: std::future::Future>(self: &Arc<Self>, fut: F) -> F::Output {
+        let waker = std::task::Waker::from(self.clone());
+        let mut cx = Context::from_waker(&waker);
+        let mut fut = std::pin::pin!(fut);
+        loop {
+            *self.st.lock().unwrap() = ExState::Running { woken: false };
+            if let Poll::Ready(v) = fut.as_mut().poll(&mut cx) { return v; }
+            let mut st = self.st.lock().unwrap();
+            if matches!(*st, ExState::Running { woken: true }) { continue; }
+            *st = ExState::Idle;
+            while matches!(*st, ExState::Idle) { st = self.cv.wait(st).unwrap(); }
+        }
+    }
+    /// nothing to do until somebody wakes it (or over)
+    fn quiet(&self) -> bool { matches!(*self.st.lock().unwrap(), ExState::Idle | ExState::Done) }
+    fn done(&self) -> bool { matches!(*self.st.lock().unwrap(), ExState::Done) }
+}
+struct SetDone(Arc<Exec>);
+impl Drop for SetDone { fn drop(&mut self) { *self.0.st.lock().unwrap() = ExState::Done; } }
+
+/// lets the tasks of this (current-thread) runtime run until neither they nor the session's thread have anything
+/// left to do; waits in real time, the runtime's clock stands still
+async fn settle(ex: &Arc<Exec>) {
+    let mut calm = 0;
+    while calm < 3 {
+        for _ in 0..8 { tokio::task::yield_now().await; }
+        if ex.quiet() { calm += 1 } else { calm = 0; std::thread::sleep(std::time::Duration::from_micros(50)); }
+    }
+}
+
+fn run_held(evs: Vec<Ev>, hang: bool, full: bool) -> String {
+    use std::time::Duration;
+    let stats = Arc::new(Stats::default());
+    install_panic_recorder();
+    LAST_PANIC.lock().unwrap().clear();
+    let rt = tokio::runtime::Builder::new_current_thread().enable_all().start_paused(true).build().unwrap();
+    let st = stats.clone();
+    // the fixture owns a cloned gate: it leaves block_on with the result and is dropped outside
+    let (res, fx) = rt.block_on(async move {
+        let (hang_tx, mut hang_rx) = tokio::sync::oneshot::channel();
+        let fx = Arc::new(StreamFixture::new("198.51.100.1:11019".parse().unwrap()).await);
+        let marks = Arc::new(Marks::default());
+        let reader = ScriptReader { evs, idx: 0, off: 0, hang, eof_reads: 0, stats: st.clone(), hang_tx: Some(hang_tx),
+                                    gets: None, gets_passed: 0, get_asked: false, fx: Some(fx.clone()), marks: marks.clone() };
+        let ex = Arc::new(Exec { st: Mutex::new(ExState::Running { woken: false }), cv: std::sync::Condvar::new() });
+        let (fx2, ex2) = (fx.clone(), ex.clone());
+        // as unit.rs accept_config does: the session is a task of its own; a panic kills that task only
+        let task = tokio::task::spawn_blocking(move || {
+            let _done = SetDone(ex2.clone());
+            ex2.drive(fx2.run(reader))
+        });
+        let t0 = std::time::Instant::now();
+        let hour = Duration::from_secs(3600);
+        let (mut terminated, mut stuck) = (false, false);
+        // (index of the update the receiving end sat on, the task was over before it let go)
+        let mut held: Option<(usize, bool)> = None;
+        loop {
+            settle(&ex).await;
+            if ex.done() { break; }
+            if t0.elapsed() > Duration::from_secs(3) { stuck = true; break; }
+            if fx.holding() && fx.parked() > 0 {
+                let idx = fx.updates().len();
+                let before = tokio::time::Instant::now();
+                tokio::time::advance(hour).await;
+                settle(&ex).await;
+                assert!(tokio::time::Instant::now() - before >= hour, "the clock did not move");
+                held = Some((idx, ex.done()));
+                fx.hold_updates(false);
+                continue;
+            }
+            if !terminated && hang_rx.try_recv().is_ok() {
+                // unit shutdown while the read is pending (the clones of the gate have attached by now: settle)
+                fx.terminate().await;
+                terminated = true;
+                continue;
+            }
+            std::thread::sleep(Duration::from_micros(100));
+        }
+        if fx.holding() { fx.hold_updates(false); }
+        let joined = if stuck { None } else { Some(task.await) };
+        settle_plain().await;
+        let head = match joined {
+            None => Some(if st.wedged.load(SeqCst) { "WEDGE".to_string() } else { "STUCK".to_string() }),
+            Some(Err(e)) if e.is_panic() => Some(format!("PANIC@{}", LAST_PANIC.lock().unwrap())),
+            Some(Err(_)) => Some("CANCELLED".into()),
+            Some(Ok(())) => None,
+        };
+        let ups = fx.updates();
+        let h = match held {
+            None => "h:-".to_string(),
+            Some((idx, _)) if idx >= ups.len() => "h:lost".to_string(),
+            Some((idx, over)) => format!("h:{}{}", kind_char(&ups[idx]), if over { "!task-over-before-release" } else { "" }),
+        };
+        let phase = fx.phase().await;
+        (observation(&fx, &st, head, vec![h], full, phase), fx)
+    });
+    // a session that is stuck keeps its thread (and the fixture) for good: do not wait for it
+    // (the fixture's Link spawns a task when dropped, its Gate clone detaches with block_in_place: the runtime's handle has
+    // to be current, but this thread must not be inside the runtime)
+    { let _g = rt.enter(); drop(fx); }
+    rt.shutdown_background();
+    res
+}
+
+async fn settle_plain() { for _ in 0..16 { tokio::task::yield_now().await; } }
 
 // ---- rendering of well-formed messages for the generators (the pool of eng pipe) ----
 fn pph(i: usize) -> enc::PerPeerHeader {
@@ -539,7 +756,7 @@ fn gauge_probe() {
     runtime().block_on(async move {
         let (hang_tx, hang_rx) = tokio::sync::oneshot::channel();
         let stats = Arc::new(Stats::default());
-        let reader = ScriptReader { evs, idx: 0, off: 0, hang: true, eof_reads: 0, stats, hang_tx: Some(hang_tx), gets: None, gets_passed: 0, get_asked: false };
+        let reader = ScriptReader { evs, idx: 0, off: 0, hang: true, eof_reads: 0, stats, hang_tx: Some(hang_tx), gets: None, gets_passed: 0, get_asked: false, fx: None, marks: Default::default() };
         let fx = Arc::new(StreamFixture::new("198.51.100.1:11019".parse().unwrap()).await);
         let before = gauge(&fx);
         let fx2 = fx.clone();
@@ -606,7 +823,7 @@ fn expo_probe(raw: bool) {
     runtime().block_on(async move {
         let (hang_tx, hang_rx) = tokio::sync::oneshot::channel();
         let stats = Arc::new(Stats::default());
-        let reader = ScriptReader { evs, idx: 0, off: 0, hang: true, eof_reads: 0, stats, hang_tx: Some(hang_tx), gets: None, gets_passed: 0, get_asked: false };
+        let reader = ScriptReader { evs, idx: 0, off: 0, hang: true, eof_reads: 0, stats, hang_tx: Some(hang_tx), gets: None, gets_passed: 0, get_asked: false, fx: None, marks: Default::default() };
         let fx = Arc::new(StreamFixture::new("198.51.100.1:11019".parse().unwrap()).await);
         let fx2 = fx.clone();
         let task = tokio::spawn(async move { fx2.run(reader).await });
